@@ -248,6 +248,57 @@ def oracle_names(case, obs):
     return out
 
 
+# ---- name selection over titles of every kind: no title at all, titles with regex metacharacters, unicode
+TITLES = ["", "", "Alice", "alice buys", "Bob (admin)", "a.b", "x", "Ünï cödé", "Dave + 1", "S", "  padded"]
+NAME_PATTERNS = [".*", "^$", "^[A-Z]?", "x*", "^(Alice.*)?$", "Alice", "^alice", "b", r"\(admin\)", "a.b", r"a\.b", "Ünï", "^S$", r"\+", "Z", r"\w", "^.?$"]
+
+
+def impl_titles(case):
+    from behave.configuration import Configuration
+    from behave.runner import ModelRunner
+    from behave.step_registry import StepRegistry
+    from behave.parser import parse_feature
+    lines = ["Feature: F"]
+    for i, t in enumerate(case["titles"]):
+        if case["outline"] == i:
+            lines += ["  Scenario Outline: %s" % t, "    Given pass <n>", "    Examples:", "      | n |", "      | 1 |", "      | 2 |"]
+        else:
+            lines += ["  Scenario: %s" % t if t else "  Scenario:", "    Given pass 1"]
+    text = "\n".join(lines) + "\n"
+    ran = []
+    reg = StepRegistry()
+    reg.add_step_definition("step", "pass {n:d}", lambda context, n: ran.append(context.scenario.line))
+    with contextlib.redirect_stdout(io.StringIO()), contextlib.redirect_stderr(io.StringIO()):
+        config = Configuration(["--no-color"] + ["--name=" + p for p in case["patterns"]], load_config=False)
+        config.reporters = []
+        config.paths = []
+        feature = parse_feature(text, filename="t.feature")
+        runner = ModelRunner(config, [feature], step_registry=reg)
+        crashed = None
+        try:
+            runner.run()
+        except BaseException as e:      # noqa
+            crashed = "%s: %s" % (type(e).__name__, e)
+    scen = [{"name": sc.name, "line": sc.line, "status": sc.status.name} for sc in feature.walk_scenarios()]
+    return {"ran": sorted(set(ran)), "scenarios": scen, "crashed": crashed, "text": text}
+
+
+def oracle_titles(case, obs):
+    if obs["crashed"]:
+        return [("run crashed: %s" % obs["crashed"], "run-crashed")]
+    out = []
+    pats = [re.compile(p, re.UNICODE) for p in case["patterns"]]
+    for sc in obs["scenarios"]:
+        want = any(p.search(sc["name"]) for p in pats)
+        if want and sc["line"] not in obs["ran"]:
+            out.append(("scenario %r (line %d) matches one of %s but did not run (status %s)" % (sc["name"], sc["line"], case["patterns"], sc["status"]),
+                        "name-selected-not-run"))
+        if not want and (sc["line"] in obs["ran"] or sc["status"] != "skipped"):
+            out.append(("scenario %r (line %d) matches none of %s but has status %s" % (sc["name"], sc["line"], case["patterns"], sc["status"]),
+                        "name-unselected-ran"))
+    return out
+
+
 # ------------------------------------------------------------------ Coq side
 HEADER = "From BV Require Import Base Select.\n"
 
@@ -386,4 +437,12 @@ def suites(tier, seed):
                     "eqb": "list_eqb (pair_eqb Nat.eqb (list_eqb Nat.eqb))", "enc": enc_files, "shard": 100}}
     nm = {"name": "names", "cases": ncases, "impl": impl_names, "oracle": oracle_names,
           "nontrivial": lambda c, o: True, "bound": "%d runs with --name patterns" % len(ncases)}
-    return [single, many, nm]
+    tcases = []
+    for _ in range(600 if thorough else 150):
+        titles = [rnd.choice(TITLES) for _ in range(rnd.randint(1, 4))]
+        tcases.append({"titles": titles, "outline": rnd.choice([None, None] + list(range(len(titles)))),
+                       "patterns": [rnd.choice(NAME_PATTERNS) for _ in range(rnd.randint(1, 2))]})
+    tt = {"name": "titles", "cases": tcases, "impl": impl_titles, "oracle": oracle_titles,
+          "nontrivial": lambda c, o: 0 < len(o["ran"]) < len(o["scenarios"]),
+          "bound": "%d runs with --name patterns over scenario titles of every kind (none, metacharacters, unicode), plain and outline" % len(tcases)}
+    return [single, many, nm, tt]
